@@ -17,7 +17,7 @@ namespace Shape
 open Gen.Shape
 
 theorem monoMidiReceiver : typesMonoMidiReceiver = ["MidiByteStreamParser", "NotePriority", "RetriggerMode",
-    "Vec<u8,HELD_DOWN_NOTE_BUFFER_LEN>", "bool", "bool", "bool", "bool", "bool",
+    "Vec<u8,N>", "bool", "bool", "bool", "bool", "bool",
     "f32", "f32", "f32", "f32", "f32", "f32", "f32", "u8", "u8"] := rfl
 theorem retriggerMode : typesRetriggerMode = ["", ""] := rfl
 theorem notePriority : typesNotePriority = ["", "", ""] := rfl
